@@ -11,9 +11,9 @@ CONSTANTS Mode, MaxWords, MaxInv, EmitCases
 VARIABLES line, lead, st, plan, ph
 
 \* ---------------- lines
-Words == { [k |-> "name", s |-> "p.patch"], [k |-> "hash"], [k |-> "p", v |-> 0], [k |-> "p", v |-> 1], [k |-> "p", v |-> 2], [k |-> "p", v |-> -1],
+Words == { [k |-> "name", s |-> "p.patch"], [k |-> "hash"], [k |-> "p", v |-> 0], [k |-> "p", v |-> 1], [k |-> "p", v |-> 2], [k |-> "p", v |-> 3], [k |-> "p", v |-> -1],
            [k |-> "popt"], [k |-> "strip", v |-> 2], [k |-> "stripopt"], [k |-> "R"], [k |-> "Rp", v |-> 2], [k |-> "bad"],
-           [k |-> "num", v |-> 0], [k |-> "num", v |-> 2] }
+           [k |-> "num", v |-> 0], [k |-> "num", v |-> 2], [k |-> "num", v |-> 4] }
 
 \* ---------------- states
 Names == <<"p1.patch", "p2.patch", "p3.patch">>
